@@ -3,6 +3,7 @@ package eng
 import (
 	"fmt"
 	"go/constant"
+	"go/token"
 	"go/types"
 	"reflect"
 	"regexp"
@@ -16,7 +17,9 @@ type route struct {
 	path    string
 	factory *ssa.Function
 	handler *ssa.Function // the closure serving requests
-	pos     string
+	// wrappers: service functions the router applies to the constructed handler before calling it (postOnly(h()))
+	wrappers []*ssa.Function
+	pos      string
 }
 
 // routeTable extracts path literal -> handler from the router's string switch.
@@ -76,12 +79,25 @@ func routeTableOf(w *World, tb *TB, rf *ssa.Function) []route {
 			}
 			r := route{path: constant.StringVal(k.Value), factory: f, pos: w.InstrPos(in)}
 			res := tb.Results(f, nil, nil, 0)
+			if f.Signature.Results().Len() == 0 && len(f.Params) == 1 && strings.HasSuffix(f.Params[0].Type().String(), "fasthttp.RequestCtx") {
+				r.handler = f // a plain handler called with the request's ctx (no constructor in between)
+			}
 			if len(res) == 1 {
 				switch v := res[0].Val.(type) {
 				case *ssa.MakeClosure:
 					r.handler = v.Fn.(*ssa.Function)
 				case *ssa.Function:
 					r.handler = v
+				}
+			}
+			// wrappers applied to the constructed handler in the router
+			if refs := cl.Referrers(); refs != nil {
+				for _, u := range *refs {
+					if wc, ok := u.(*ssa.Call); ok && wc != cl {
+						if g := wc.Call.StaticCallee(); g != nil && fnPkgPath(g) == ApiPath && len(wc.Call.Args) == 1 && wc.Call.Args[0] == ssa.Value(cl) {
+							r.wrappers = append(r.wrappers, g)
+						}
+					}
 				}
 			}
 			out = append(out, r)
@@ -248,7 +264,7 @@ func checkRespField(c *Check, w *World, tb *TB, rule string, h *ssa.Function, wi
 		}
 	})
 	switch {
-	case altered != "" && !found:
+	case altered != "":
 		c.Bad(rule, fn, "response."+wire, "the response field "+wire+" is "+clip(altered, 200)+": the library's result is post-processed before it is returned", pos)
 	case found && badOpt != "":
 		c.Bad(rule, fn, "response."+wire, "the response field "+wire+" carries the json option "+badOpt+": the result is omitted or re-encoded for some values", pos)
@@ -293,13 +309,41 @@ type handlerInfo struct {
 	goOf    map[string]string
 	reqRoot string // "alloc" when the decode target is a per-request local
 	unm     ssa.CallInstruction
+	custom  []string // request types with their own JSON decoding
 }
 
 func analyseHandler(w *World, tb *TB, h *ssa.Function) *handlerInfo {
 	hi := &handlerInfo{tb: tb, fn: h, tags: map[string]string{}, goOf: map[string]string{}}
-	EachInstr(h, func(in ssa.Instruction) {
+	// the handler itself and the service-layer helpers it calls (a shared decode helper, generic or not) run once per
+	// request: a local of any of them is a per-request object
+	perReq := map[*ssa.Function]bool{h: true}
+	var unit []*ssa.Function
+	var collect func(f *ssa.Function, depth int)
+	collect = func(f *ssa.Function, depth int) {
+		unit = append(unit, f)
+		if depth >= 2 {
+			return
+		}
+		EachInstr(f, func(in ssa.Instruction) {
+			if ci, ok := in.(ssa.CallInstruction); ok {
+				if g := ci.Common().StaticCallee(); g != nil && g.Blocks != nil && fnPkgPath(g) == ApiPath && !perReq[g] {
+					perReq[g] = true
+					collect(g, depth+1)
+				}
+			}
+		})
+	}
+	collect(h, 0)
+	for _, uf := range unit {
+		analyseDecode(w, tb, hi, h, uf, perReq)
+	}
+	return hi
+}
+
+func analyseDecode(w *World, tb *TB, hi *handlerInfo, h, uf *ssa.Function, perReq map[*ssa.Function]bool) {
+	EachInstr(uf, func(in ssa.Instruction) {
 		ci, ok := in.(ssa.CallInstruction)
-		if !ok || CalleeName(ci.Common()) != "encoding/json.Unmarshal" || len(ci.Common().Args) != 2 {
+		if !ok || CalleeName(ci.Common()) != "encoding/json.Unmarshal" || len(ci.Common().Args) != 2 || (hi.unm != nil && uf != h) {
 			return
 		}
 		hi.unm = ci
@@ -308,10 +352,11 @@ func analyseHandler(w *World, tb *TB, h *ssa.Function) *handlerInfo {
 			tgt = mi.X
 		}
 		jsonTags(tgt.Type(), "", hi.tags, "")
+		hi.custom = customDecoders(tgt.Type(), map[types.Type]bool{}, 0)
 		roots := tb.RootTerms(tb.Of(tgt), 0)
 		hi.reqRoot = ""
 		for _, r := range roots {
-			if r.Op == "alloc" && r.Val.(*ssa.Alloc).Parent() == h {
+			if r.Op == "alloc" && perReq[r.Val.(*ssa.Alloc).Parent()] {
 				if hi.reqRoot == "" {
 					hi.reqRoot = "alloc"
 				}
@@ -320,7 +365,43 @@ func analyseHandler(w *World, tb *TB, h *ssa.Function) *handlerInfo {
 			}
 		}
 	})
-	return hi
+}
+
+// customDecoders: the types inside a decode target that bring their own JSON decoding (UnmarshalJSON /
+// UnmarshalText): what such a field holds after decoding is whatever that method computes, not the JSON value the
+// field mapping rules reason about (a counter decoded through a float64 loses its low bits above 2^53).
+func customDecoders(t types.Type, seen map[types.Type]bool, depth int) []string {
+	if depth > 6 || seen[t] {
+		return nil
+	}
+	seen[t] = true
+	var out []string
+	if p, ok := t.Underlying().(*types.Pointer); ok && depth == 0 {
+		t = p.Elem()
+	}
+	if _, isNamed := types.Unalias(t).(*types.Named); isNamed {
+		ms := types.NewMethodSet(types.NewPointer(t))
+		for i := 0; i < ms.Len(); i++ {
+			if n := ms.At(i).Obj().Name(); n == "UnmarshalJSON" || n == "UnmarshalText" {
+				if o := ms.At(i).Obj(); o.Pkg() != nil && strings.HasPrefix(o.Pkg().Path(), OtpPath) {
+					out = append(out, types.TypeString(t, relQual)+"."+n)
+				}
+			}
+		}
+	}
+	switch u := t.Underlying().(type) {
+	case *types.Struct:
+		for i := 0; i < u.NumFields(); i++ {
+			out = append(out, customDecoders(u.Field(i).Type(), seen, depth+1)...)
+		}
+	case *types.Pointer:
+		out = append(out, customDecoders(u.Elem(), seen, depth+1)...)
+	case *types.Slice:
+		out = append(out, customDecoders(u.Elem(), seen, depth+1)...)
+	case *types.Map:
+		out = append(out, customDecoders(u.Elem(), seen, depth+1)...)
+	}
+	return out
 }
 
 func (hi *handlerInfo) norm(t *Term) string {
@@ -596,6 +677,7 @@ func runC18(c *Check, w *World) {
 	// what the endpoints reflect must itself be right: the registry entry of each advertised name (the
 	// /ocra/suite and raw_suite answers) and the library's URL builder (the /otp/url answer)
 	ruleRegistryFidelity(c, w, "R18.8")
+	ruleChainTransparent(c, w, tb, "R18.1")
 	ruleWireEnums(c, w, "R18.9")
 	c.Floor("R18.9", 11)
 	runC16(c, w)
@@ -708,7 +790,12 @@ func restRules(c *Check, w *World, tb *TB, ef *Effects, pfx string, only []strin
 				gate = true
 			}
 		}
-		c.Decide(gate, pfx+".1", FuncName(r.handler), "method-gate:"+m, "the handler starts with the "+m+" gate", "the handler does not start by testing "+m, w.Pos(r.handler.Pos()))
+		for _, wf := range r.wrappers {
+			if !gate && methodGateWrapper(tb, wf, m) {
+				gate = true
+			}
+		}
+		c.Decide(gate, pfx+".1", FuncName(r.handler), "method-gate:"+m, "the handler starts with the "+m+" gate (or the router applies a wrapper that lets only such requests through)", "the handler does not start by testing "+m, w.Pos(r.handler.Pos()))
 	}
 	// distinct handlers
 	seenH := map[*ssa.Function]string{}
@@ -756,6 +843,9 @@ func restRules(c *Check, w *World, tb *TB, ef *Effects, pfx string, only []strin
 		if !prechecked[r.handler] {
 			prechecked[r.handler] = true
 			rulePrechecks(c, w, tb, pfx+".6", r.handler, lib != "SuiteConfigFromRaws" && lib != "ListSuites" && lib != "RandomSecret")
+		}
+		if hi.unm != nil {
+			c.Decide(len(hi.custom) == 0, pfx+".2", fn, "request-decoding", "the request fields are decoded by the standard JSON rules", "request fields are decoded by the service's own "+strings.Join(hi.custom, ", ")+": what the library receives is what that method computes from the JSON text, not the field's value", w.InstrPos(hi.unm))
 		}
 		calls := libCallsOf(r.handler)[lib]
 		if len(calls) != 1 {
@@ -1024,10 +1114,57 @@ func init() {
 		explain: "R18.1 the router's path switch maps the ten documented literals to ten distinct handlers, each of which calls exactly the library operation of that endpoint and starts with its method gate; R18.2 per endpoint, with request fields identified by their JSON tags (struct tags of the decode target of json.Unmarshal), every argument of the library call and every field of the parameter struct is the documented request field through the documented transform " +
 			"(TrimSpace on secrets optional, AlgorithmFromStr/DigitsFromStr, timestamp>0 ? Unix(timestamp,0) : Now, period default 30 optional, ten suite fields, five hex input fields in order, raw_suite override), no undocumented field is set, and the response field is the library's result; the /ocra/suite response mirrors the registry entry field by field; " +
 			"R18.4 the string→enum fall-back tables are as documented (unknown → SHA1 / 6); R18.5 the service layer keeps no request state: requests are decoded into per-request locals, no package-level variable is written, no sync.Pool objects, no locks. " +
-			"Not decided: HTTP framing, JSON decoding semantics, fasthttp's concurrency; swagger text is not compared.",
+			"Not decided: HTTP framing, JSON decoding semantics, fasthttp's concurrency; swagger text is not compared. " +
+			"Response fields are identified by the value stored in them and must carry the documented wire name without omitempty/string options (code, valid, url, secret, algorithm, suites, the suite description); R18.9 the exported enumerators have the documented numeric wire values. The router and the other fixed roles of the service layer are found by what they do, not by name.",
 		trusted:  []string{"encoding/json decodes fields by their struct tags", "fasthttp delivers the request body and query arguments unchanged"},
 		quick:    []Config{CfgNative},
 		thorough: []Config{CfgNative, Cfg386},
 		run:      runC18,
 	})
+}
+
+// methodGateWrapper: wf(next) returns a handler that starts by testing ctx.<m>() and calls next(ctx) only where
+// that test holds.
+func methodGateWrapper(tb *TB, wf *ssa.Function, m string) bool {
+	if wf == nil || len(wf.Params) != 1 || len(wf.AnonFuncs) != 1 {
+		return false
+	}
+	inner := wf.AnonFuncs[0]
+	if len(inner.Params) != 1 || len(inner.Blocks) == 0 {
+		return false
+	}
+	iff, ok := inner.Blocks[0].Instrs[len(inner.Blocks[0].Instrs)-1].(*ssa.If)
+	if !ok || !strings.Contains(tb.Of(iff.Cond).String(), "github.com/valyala/fasthttp.RequestCtx)."+m+";") {
+		return false
+	}
+	okAll, n := true, 0
+	EachInstr(inner, func(in ssa.Instruction) {
+		cl, ok := in.(*ssa.Call)
+		if !ok || cl.Call.StaticCallee() != nil || cl.Call.IsInvoke() {
+			return
+		}
+		if _, isBuiltin := cl.Call.Value.(*ssa.Builtin); isBuiltin {
+			return
+		}
+		// a dynamic call: the next handler
+		n++
+		under := false
+		for _, cd := range CondsAt(cl.Block()) {
+			v, pos := cd.V, cd.Pos
+			for {
+				if u, isNot := v.(*ssa.UnOp); isNot && u.Op == token.NOT {
+					v, pos = u.X, !pos
+					continue
+				}
+				break
+			}
+			if mc, isCall := v.(*ssa.Call); isCall && pos && strings.HasSuffix(CalleeName(mc.Common()), "fasthttp.RequestCtx)."+m) {
+				under = true
+			}
+		}
+		if !under {
+			okAll = false
+		}
+	})
+	return okAll && n > 0
 }
